@@ -95,7 +95,22 @@ def check(run):
     texts = [t for e in U for t, _ in U[e]]
     import regexgen
     for e in U: texts += regexgen.sample(vlib.REPO, e, rnd, 60 if quick else 400) + regexgen.sample(vlib.REPO, e, rnd, 30 if quick else 200, files=("range.go",))
-    garb = garbage(rnd, texts, 1500 if quick else 20000)
+    # range texts of the C02 catalogue and the C05 shorthand table (every AND/OR syntax, keyword and bracket form),
+    # as they are and as seeds of the garbage mutations
+    import check_c02, check_c05
+    accv = vlib.accepted(run, exe, {e: U[e] for e in check_c02.ECOS})
+    rtexts = [j["text"] for j in check_c02.gen_round(run, exe, accv, rnd, 0, 0)] + [v["text"] for v in check_c05.vectors(run)]
+    rtexts = rnd.sample(rtexts, min(len(rtexts), 2500 if quick else 12000))
+    texts += rtexts
+    garb = garbage(rnd, texts, 1500 if quick else 20000) + [list(t.encode()) for t in rtexts]
+    # digit runs of valid texts replaced by numbers around 2^63 / 2^64 and by 20-digit runs (conversions in rare branches)
+    import re
+    for t in rnd.sample(texts, min(len(texts), 400 if quick else 4000)):
+        runs = list(re.finditer(r"[0-9]+", t))
+        if runs:
+            m = rnd.choice(runs)
+            for b in ("9223372036854775807", "9223372036854775808", "18446744073709551616", "99999999999999999999", "4294967296"):
+                garb.append(list((t[:m.start()] + b + t[m.end():]).encode()))
     if quick:
         longs = [l for l in longs if l["n"] in (1000, 100000)]
         longs = rnd.sample(longs, 120)
